@@ -575,6 +575,15 @@ Proof.
       f_equal. f_equal; lia.
 Qed.
 
+Lemma dec_json_num f d :
+  dec_json (S f) 11 d = if (8 <=? length d)%nat then Some (JNum (le_val (firstn 8 d))) else None.
+Proof. reflexivity. Qed.
+Lemma dec_json_str f d :
+  dec_json (S f) 12 d = match json_read_len 5 d 1 0 with
+                        | Some (l, n) => if (N.to_nat (n + l) <=? length d)%nat then Some (JStr (sub d n l)) else None
+                        | None => None end.
+Proof. reflexivity. Qed.
+
 Definition jv_scalar (v : jv) : bool :=
   match v with JArr _ | JObj _ => false | _ => true end.
 
@@ -605,14 +614,14 @@ Proof.
   - eexists. split; [reflexivity|]. vm_compute. reflexivity.
   - apply N.ltb_lt in H. cbn [enc_json]. eexists. split; [reflexivity|].
     rewrite doc_frame by (rewrite le_length; reflexivity).
-    cbn [dec_json]. cbn [N.eqb Pos.eqb]. rewrite le_length. cbn [Nat.leb].
+    change 64%nat with (S 63). rewrite dec_json_num. rewrite le_length. cbn [Nat.leb].
     rewrite firstn_all2 by (rewrite le_length; lia).
     rewrite le_roundtrip by (unfold pow256; cbn; lia). unfold opt_eqb. cbn [jv_eqb]. apply N.eqb_refl.
   - unfold str_ok in H. apply andb_true_iff in H as [Hl _]. apply N.ltb_lt in Hl. cbn [enc_json].
     destruct (json_len_roundtrip (N.of_nat (length s)) s Hl) as [lb [E1 [E2 E3]]]. rewrite E1.
     eexists. split; [reflexivity|].
     rewrite doc_frame by (rewrite app_length; unfold u32; lia).
-    cbn [dec_json]. cbn [N.eqb Pos.eqb]. rewrite E2.
+    change 64%nat with (S 63). rewrite dec_json_str. rewrite E2.
     assert (Hle : (N.to_nat (N.of_nat (length lb) + N.of_nat (length s)) <=? length (lb ++ s))%nat = true)
       by (apply Nat.leb_le; rewrite app_length; lia).
     rewrite Hle. unfold sub. rewrite !Nat2N.id, (skipn_app_exact _ _ _ eq_refl), firstn_all.
@@ -641,3 +650,64 @@ Example json_examples :
      JArr [JStr (repeat 97 70000); JStr [120]];                        (* large format after the small one overflows *)
      JArr (repeat JNull 300)] = true.
 Proof. vm_compute. reflexivity. Qed.
+
+(* ---- the oracle holds on the model: for every in-domain value outside the refuted classes (and, for JSON,
+   inside the proved scalar class) the model's bytes + metadata satisfy the executable property ---- *)
+Definition proved_class (v : value) : Prop :=
+  match v with
+  | VYear y => y <> 0%Z
+  | VTime neg _ _ s us => neg = true -> 0 < us -> s < 59
+  | VDecimal prec scale _ _ _ => prec <> scale
+  | VJson d => jv_scalar d = true
+  | _ => True
+  end.
+
+Lemma meta_ok_model v : in_domain v = true -> meta_ok v (fst (model_meta v)) (snd (model_meta v)) = true.
+Proof.
+  destruct v; cbn [in_domain model_meta meta_ok fst snd]; intros H; try (apply N.eqb_refl);
+    try (rewrite ?N.eqb_refl; reflexivity).
+  - (* decimal *) repeat (apply andb_true_iff in H as [H ?]).
+    repeat match goal with X : (_ <=? _) = true |- _ => apply N.leb_le in X end.
+    repeat (apply andb_true_iff; split); apply N.eqb_eq; lia.
+  - (* string *) destruct fixed; cbn [fst snd]; [|rewrite !N.eqb_refl; reflexivity].
+    repeat (apply andb_true_iff in H as [H ?]).
+    match goal with X : (maxlen <? _) = true |- _ => apply N.ltb_lt in X; rewrite (char_meta_roundtrip _ X) end.
+    rewrite !N.eqb_refl. reflexivity.
+  - (* enum *) repeat (apply andb_true_iff; split); apply N.eqb_eq; unfold enum_width; destruct (members <=? 255); cbn; lia.
+  - (* set *) repeat (apply andb_true_iff in H as [H ?]).
+    repeat match goal with X : (_ <=? _) = true |- _ => apply N.leb_le in X end.
+    assert (W : N.of_nat (set_width members) <= 8) by (unfold set_width; rewrite N2Nat.id; lia).
+    repeat (apply andb_true_iff; split); apply N.eqb_eq; lia.
+  - (* bit *) repeat (apply andb_true_iff in H as [H ?]).
+    repeat match goal with X : (_ <=? _) = true |- _ => apply N.leb_le in X end.
+    rewrite N.eqb_refl. cbn [andb].
+    assert (E1 : (bits / 8 * 256 + bits mod 8) / 256 = bits / 8) by lia.
+    assert (E2 : (bits / 8 * 256 + bits mod 8) mod 256 = bits mod 8) by lia.
+    rewrite E1, E2. apply N.eqb_eq. rewrite <- bit_meta_len_ok by lia. reflexivity.
+Qed.
+
+Theorem oracle_on_model v : in_domain v = true -> proved_class v -> oracle v (model_obs v) = true.
+Proof.
+  intros Hd Hp. unfold oracle. rewrite Hd. cbn [negb].
+  assert (E : exists b, model_enc v = Some b /\ decodes_to v b = true).
+  { destruct v; cbn [model_enc proved_class] in *;
+      try (eexists; split; [reflexivity|]).
+    - apply int_roundtrip; exact Hd.
+    - apply year_roundtrip. cbn [in_domain] in Hd. apply orb_true_iff in Hd as [Hd|Hd]; [apply Z.eqb_eq in Hd; congruence|].
+      apply andb_true_iff in Hd as [H1 H2]. apply Z.leb_le in H1, H2. split; assumption.
+    - apply date_roundtrip; exact Hd.
+    - apply datetime2_roundtrip; exact Hd.
+    - apply timestamp2_roundtrip; exact Hd.
+    - apply time2_roundtrip; assumption.
+    - apply decimal_roundtrip; assumption.
+    - apply string_roundtrip; exact Hd.
+    - apply blob_roundtrip; exact Hd.
+    - apply enum_roundtrip; exact Hd.
+    - apply set_roundtrip; exact Hd.
+    - apply bit_roundtrip; exact Hd.
+    - apply float_roundtrip; exact Hd.
+    - apply double_roundtrip; exact Hd.
+    - apply json_scalar_roundtrip_partial; assumption. }
+  destruct E as [b [Eb Db]]. unfold model_obs. rewrite Eb. cbn [o_data o_typ o_meta o_agree].
+  rewrite Db, (meta_ok_model v Hd). reflexivity.
+Qed.
